@@ -127,9 +127,15 @@ Section RenderInv.
       destruct (c <=? new_max); try exact H.
     apply IH; [exact Hr | exact Hz|].
     destruct (negb _ || negb _); [|exact H].
-    apply set_pos_ok, output_char_ok; [apply get_cell_ok; exact Hr|].
-    destruct (assoc zrow c) as [t|] eqn:E; [|apply move_cursor_ok; exact H].
-    apply emit_ok; [|apply move_cursor_ok; exact H]. cbn. split; [reflexivity | exact (Hz c t E)].
+    apply set_pos_ok.
+    assert (H2 : out_ok (match assoc zrow c with
+                         | Some t => emit FromZWE KRaw t (move_cursor width c y s)
+                         | None => move_cursor width c y s end)).
+    { destruct (assoc zrow c) as [t|] eqn:E; [|apply move_cursor_ok; exact H].
+      apply emit_ok; [|apply move_cursor_ok; exact H]. cbn. split; [reflexivity | exact (Hz c t E)]. }
+    destruct (str_eqb _ [32] && str_eqb _ TRANSPARENT).
+    - apply emit_ok; [cbn; split; reflexivity | apply reset_attributes_ok; exact H2].
+    - apply output_char_ok; [apply get_cell_ok; exact Hr | exact H2].
   Qed.
 
   Lemma do_row_ok scr prev s y : data_ok (sdata scr) -> incl (zwe_texts scr) ZT -> out_ok s ->
@@ -265,8 +271,10 @@ Section Fuel.
     pose proof (get_cell_ok wc new_row c Hr) as [_ Hw].
     rewrite IH; [|exact Hr|].
     - destruct (negb _ || negb _); [|reflexivity].
-      cbn [set_pos roof]. rewrite roof_output_char.
-      destruct (assoc zrow c); [cbn [emit roof]|]; apply roof_move_cursor.
+      cbn [set_pos roof].
+      destruct (str_eqb _ [32] && str_eqb _ TRANSPARENT);
+        [cbn [emit roof reset_attributes set_last vt_reset_attributes raw] | rewrite roof_output_char];
+        (destruct (assoc zrow c); [cbn [emit roof]|]; apply roof_move_cursor).
     - destruct (cw (get_cell wc new_row c) =? 0) eqn:E0; [lia|]. apply Z.eqb_neq in E0. lia.
   Qed.
 
